@@ -229,7 +229,7 @@ theorem checkRegular_member (w : World) (raw : Str → List TagCall × Bool) (o 
     fakePath_under _ _ _ (endsWithSep_append_singleton _) (endsWithSep_append_singleton _)]
   have : List.drop ((baseDir w k).length + 1) ((baseDir w k ++ [sep]) ++ m) = m := by
     have := drop_length_append (baseDir w k ++ [sep]) m
-    simpa using this
-  simp [this]
+    simp
+  simp
 
 end I18n.Deb
